@@ -69,7 +69,9 @@ ASSUME KeyRegime \in {"mock", "drkey"} /\ CheckSrcHost \in BOOLEAN /\ MaxDatagra
 CONSTANT Fault
 Faults == {"none", "srvIgnoreMac", "cliIgnoreMac", "replySpiClient", "replyNoAuth", "replyMacShort",
            "noPortSwap", "noAddrSwap", "noReverse", "replyToSrc", "fwdOnSrvPort", "fwdBackToEh", "fwdPayload",
-           "echoPayload"}
+           "echoPayload",
+           "authOnlyDirectE2E"}   \* the authenticator is looked for only if the end-to-end header
+                                  \* directly follows the SCION header (NextHdr = End2EndClass)
 ASSUME Fault \in Faults
 
 (***************************************************************************)
@@ -191,6 +193,19 @@ MkAuth(d, k, spi, other) ==
 ExpectedReq(d)  == d.auth.present /\ d.auth.spi = "client" /\ d.auth.algo = "cmac"
 ExpectedResp(d) == d.auth.present /\ d.auth.spi = "server" /\ d.auth.algo = "cmac"
 
+\* Extension header chain between the SCION header and the upper layer.  The
+\* end-to-end header exists iff it has an option to carry; neither header is
+\* covered by the MAC (its input is the SCION header and the upper layer).
+\*   "e2e"        SCION | E2E{authenticator} | L4      (no header at all without authenticator)
+\*   "hbh"        SCION | HBH{padding} | E2E{authenticator} | L4
+\*   "optBefore"  SCION | E2E{unknown option, authenticator} | L4
+\*   "optAfter"   SCION | E2E{authenticator, unknown option} | L4
+Exts == {"e2e", "hbh", "optBefore", "optAfter"}
+\* server_scion.go / client_scion.go: "the layer decoded before the upper layer is
+\* the end-to-end header" and FindOption(authenticator): wherever the header and
+\* the option are in the chain
+AuthFound(d) == d.auth.present /\ (Fault = "authOnlyDirectE2E" => d.ext # "hbh")
+
 \* an NTP payload the server answers (ntp.DecodePacket, ntp.ValidateRequest)
 NtpOK(pl) == pl \in {"ntp", "ntp'"}
 
@@ -216,7 +231,8 @@ VARIABLES
 kvars == <<cache, kinfo, nsent, hist>>
 vars == <<mode, cauth, pc, req, authd, act, out, rm, resp, cres, cache, kinfo, nsent, hist>>
 
-CONSTANTS Modes, ULs, L4s, DPorts, DHosts, Fams, PathSet, Pls, ReqAuths, RespMuts, CIAs, CHosts
+CONSTANTS Modes, ULs, L4s, DPorts, DHosts, Fams, PathSet, Pls, ReqAuths, RespMuts, CIAs, CHosts,
+          PathExts, RespExts   \* <<path, extension chain>> pairs of requests; chains the network gives a response
 
 LocalHostPort == IF mode = "server" THEN "srv" ELSE "eh"
 Fetcher       == mode = "server"
@@ -227,6 +243,7 @@ AllCIAs == {"iaC", "iaC2"}
 Blank == [ul |-> "srv", l4 |-> "udp", sia |-> "iaC", dia |-> "iaS", sh |-> "C", dh |-> "S", sfam |-> 4, dfam |-> 4,
           sp |-> "cp", dp |-> "srv", path |-> EmptyPath, ptype |-> "empty", pl |-> "ntp",
           hdr |-> "h0", ptok |-> "p0", mut |-> "m0", auth |-> NoAuth,
+          ext |-> "e2e",      \* extension header chain, see Exts
           ak |-> "absent", pl0 |-> "ntp"]  \* bookkeeping only: what was done to the authenticator, payload as built
 
 Init ==
@@ -263,7 +280,8 @@ ChooseAddr ==
 
 ChoosePath ==
   /\ pc = "path"
-  /\ \E p \in PathSet : req' = [req EXCEPT !.path = p, !.ptype = p.kind]
+  /\ \E pe \in PathExts : req' = [req EXCEPT !.path = pe[1], !.ptype = pe[1].kind,
+                                               !.ext = IF req.l4 = "udp" THEN pe[2] ELSE "e2e"]
   /\ pc' = "auth"
   /\ UNCHANGED kvars /\ UNCHANGED <<mode, cauth, authd, act, out, rm, resp, cres>>
 
@@ -288,7 +306,8 @@ Swapped(d) ==
       b == IF Fault = "noReverse" THEN a
            ELSE [a EXCEPT !.path = Reverse(d.path),
                           !.ptype = IF KeepPathType THEN d.ptype ELSE Reverse(d.path).kind]
-  IN IF d.l4 = "udp" /\ Fault # "noPortSwap" THEN [b EXCEPT !.sp = d.dp, !.dp = d.sp] ELSE b
+      c == [b EXCEPT !.ext = "e2e"]     \* replies are built afresh: no hop-by-hop header, one option at most
+  IN IF d.l4 = "udp" /\ Fault # "noPortSwap" THEN [c EXCEPT !.sp = d.dp, !.dp = d.sp] ELSE c
 
 ReplyTo == IF Fault = "replyToSrc" THEN "src" ELSE "prev"     \* conn.WriteToUDPAddrPort(..., lastHop)
 
@@ -317,7 +336,10 @@ Forward ==
   /\ pc = "sent" /\ req.l4 = "udp" /\ ForwardOK
   \* the extension headers travel along (a receive-timestamp option is added; the UDP
   \* checksum is recomputed); sent to (SCION destination host, L4 destination port)
-  /\ Finish("Forward", <<[to |-> "dst", d |-> IF Fault = "fwdPayload" THEN [req EXCEPT !.pl = "data'"] ELSE req]>>)
+  \* ... unless a hop-by-hop header comes first (NextHdr # End2EndClass): then both
+  \* extension headers are replaced by a new end-to-end header with that option only
+  /\ LET f == IF req.ext = "hbh" THEN [req EXCEPT !.auth = NoAuth, !.ext = "e2e"] ELSE req
+     IN Finish("Forward", <<[to |-> "dst", d |-> IF Fault = "fwdPayload" THEN [f EXCEPT !.pl = "data'"] ELSE f]>>)
 
 Receive ==
   /\ pc = "sent"
@@ -344,7 +366,7 @@ EntryFor(d) == IF Refetch(d)
 SrvKey(d) == LET e == EntryFor(d) IN HHKey(e.srvIA, e.cliIA, e.srvHost, d.sh)
 Verify ==
   /\ pc = "verify"
-  /\ IF Fetcher /\ ExpectedReq(req)
+  /\ IF Fetcher /\ AuthFound(req) /\ ExpectedReq(req)
      THEN /\ cache' = [cache EXCEPT ![req.sia] = EntryFor(req)]
           /\ kinfo' = [asked |-> TRUE, exp |-> cache[req.sia].valid /\ cache[req.sia].expired,
                        fetch |-> Refetch(req), key |-> SrvKey(req)]
@@ -373,12 +395,12 @@ ServeNtp ==
 \* -------------------------------------------------- the way back, the client
 Relay ==
   /\ pc = "relay"
-  /\ \E m \in RespMuts :
+  /\ \E m \in RespMuts, x \in RespExts :
        /\ m \notin {"pass", "strip"} => out[1].d.auth.present
        /\ rm' = m
-       /\ resp' = CASE m = "pass"  -> out[1].d
-                    [] m = "strip" -> [out[1].d EXCEPT !.auth = NoAuth]
-                    [] OTHER       -> Tamper(out[1].d, m)
+       /\ resp' = [(CASE m = "pass"  -> out[1].d
+                      [] m = "strip" -> [out[1].d EXCEPT !.auth = NoAuth]
+                      [] OTHER       -> Tamper(out[1].d, m)) EXCEPT !.ext = x]
   /\ pc' = "client"
   /\ UNCHANGED kvars /\ UNCHANGED <<mode, cauth, req, authd, act, out, cres>>
 
@@ -505,7 +527,7 @@ PredictAct(m, d) ==
           IF d.dp # lhp
           THEN (IF d.ul = "eh" /\ d.dp # "eh" THEN "Forward" ELSE "Drop")
           ELSE IF lhp = "eh" THEN "Drop"
-          ELSE IF m = "server" /\ ExpectedReq(d) /\ ~MacOK(d, ReqKey(d)) THEN "Drop"
+          ELSE IF m = "server" /\ AuthFound(d) /\ ExpectedReq(d) /\ ~MacOK(d, ReqKey(d)) THEN "Drop"
           ELSE IF NtpOK(d.pl) THEN "ServeNtp" ELSE "Drop"
-PredictAuthd(m, d) == m = "server" /\ ExpectedReq(d) /\ MacOK(d, ReqKey(d))
+PredictAuthd(m, d) == m = "server" /\ AuthFound(d) /\ ExpectedReq(d) /\ MacOK(d, ReqKey(d))
 =============================================================================
